@@ -152,7 +152,7 @@ def do_check(tier, seed, t0):
         check_n = cases if tier == "quick" else min(cases, 2_000_000)
         b = run_batch(seed, check_n, 5, "b")
         a2 = a if check_n == cases else run_batch(seed, check_n, 16, "a2")
-        if a2["digest"] != b["digest"] or a2["verdicts"] != b["verdicts"]:
+        if a2["digest"] != b["digest"] or a2["verdicts_excluding_address_bearing_cases"] != b["verdicts_excluding_address_bearing_cases"]:
             raise Harness("simulator is not deterministic: digest %s (16 workers) vs %s (5 workers)" % (a2["digest"], b["digest"]))
         if a["_rc"] == 2 or a["harness_error"]:
             raise Harness("self-check failed: hand-written reference differs from std's derive: %s" % json.dumps(a["harness_error"])[:2000])
